@@ -74,8 +74,16 @@ def main() -> int:
         bad = [x for x in chk["axioms"] if x.startswith("UNSAFE") or x.split(".")[-1] not in {y.split(".")[-1] for y in build.ALLOWED_AXIOMS}]
         if not chk["ok"] or bad:
             problems.append("coqchk: " + (", ".join(bad) or chk["tail"][-300:]))
+    # the whole run is bounded: a library that stops terminating (or becomes very slow) on some input must not hang
+    # the check; the report then names the last case that was started
+    from harness import implrun
+    budget = int(os.environ.get("VERIF_BUDGET_S", "1200" if a.tier == "quick" else "21600"))
     try:
-        mod.run(ctx)
+        with implrun.time_limit(budget):
+            mod.run(ctx)
+    except implrun.Timeout:
+        problems.append(f"the check did not finish within {budget} s (quick runs take under a minute on the pinned tree); "
+                        f"last case started: {json.dumps(ctx.last_case, default=str)[:1200]}")
     except Exception:
         problems.append("harness error: " + traceback.format_exc()[-1500:])
 
